@@ -48,17 +48,34 @@ theorem C07_digest_length (perm : List Wd → List Wd) (hp : ∀ s, 4 ≤ (perm 
     have h12 := this input.length input.length (zeros 12) (by simp [zeros])
     rw [List.length_take]; omega
 
-/- FULL STATEMENT (not yet proved) for the two-at-a-time AVX512 variant:
-     theorem C07_avx512 (perm perm2) (h : ∀ a b, perm2 (interleave a b) = interleave (perm a) (perm b)) (in1 in2) (hl : in1.length = in2.length) :
-       linearHash512 perm2 (in1 ++ in2) in1.length = linearHash perm in1 ++ linearHash perm in2
-   The model `Model.linearHash512` mirrors the interleaved-state loop; the correspondence run compares its two digests with
-   the reference sponge for every length. Proved below: the pass-through case. -/
-theorem C07_avx512_passthrough_partial (perm2 : List Wd → List Wd) (in1 in2 : List Wd) (hl : in1.length = in2.length)
+/-- the two-at-a-time AVX512 variant, pass-through case: two inputs of at most four elements are returned unchanged,
+    each zero-padded to four -/
+theorem C07_avx512_passthrough (perm2 : List Wd → List Wd) (in1 in2 : List Wd) (hl : in1.length = in2.length)
     (h : in1.length ≤ 4) :
     linearHash512 perm2 (in1 ++ in2) in1.length = (in1 ++ zeros (4 - in1.length)) ++ (in2 ++ zeros (4 - in2.length)) := by
   unfold linearHash512
   simp only [h, if_true]
   rw [List.take_left', List.drop_left', hl, List.take_of_length_le (Nat.le_refl _)] <;> first | rfl | exact hl.symm ▸ rfl
+
+/-- the two-at-a-time AVX512 variant, every length: if the two-state permutation acts on the interleaved layout
+    [a0..3 b0..3 a4..7 b4..7 a8..11 b8..11] as the one-state permutation on each state (C06_avx512_eq_spec), and the
+    one-state permutation returns twelve elements, then hashing two equally long inputs side by side gives exactly the two
+    one-input digests, i.e. (by `C07_linear_hash_is_sponge`) two sponges.  `Model.linearHash512` mirrors the
+    interleaved-state loop (memset + four memcpy's per block, eight-word capacity feedback). -/
+theorem C07_avx512 (perm perm2 : List Wd → List Wd)
+    (h : ∀ a b, a.length = 12 → b.length = 12 → perm2 (interleave a b) = interleave (perm a) (perm b))
+    (hp : ∀ s, s.length = 12 → (perm s).length = 12)
+    (in1 in2 : List Wd) (hl : in1.length = in2.length) :
+    linearHash512 perm2 (in1 ++ in2) in1.length = linearHash perm in1 ++ linearHash perm in2 :=
+  linearHash512_eq perm perm2 h hp in1 in2 hl
+
+/-- hence both AVX512 digests are the specification sponge of their input -/
+theorem C07_avx512_is_sponge (perm perm2 : List Wd → List Wd)
+    (h : ∀ a b, a.length = 12 → b.length = 12 → perm2 (interleave a b) = interleave (perm a) (perm b))
+    (hp : ∀ s, s.length = 12 → (perm s).length = 12)
+    (in1 in2 : List Wd) (hl : in1.length = in2.length) :
+    linearHash512 perm2 (in1 ++ in2) in1.length = spongeSpec perm in1 ++ spongeSpec perm in2 := by
+  rw [C07_avx512 perm perm2 h hp in1 in2 hl, linearHash_eq_spec, linearHash_eq_spec]
 
 /-- non-vacuity: a 13-element input exercises two full-rate blocks with padding -/
 example : (spongeSpec (fun s => s) (List.replicate 13 1#64)).length = 4 := by decide
